@@ -55,6 +55,21 @@ top of `Inv2`, that a closed response stream leaves no terminal status of `r` in
 `emitDone r` only follows a `callTerminate` carrying the identity of the registered response — checked on the
 real code by the oracle class `outcome-multi`), "at least one outcome" (liveness, `outcome-none`), and the per-registration reading
 when an id is re-used (the log is keyed by id: outcomes of different registrations of one id interleave).
+
+Proof plan for the open clause `¬ (1 ≤ completedCount s r ∧ 1 ≤ networkErrorCount s r)` (drained ids, `r` registered once).
+Every invariant below was TESTED (not proved) on all prefix states of 20 000 random model runs with single-use ids
+(limits 0 / 60 / 100, pool 0 / 2; about 0.6 completed and 0.6 network-error notifications per run) without a violation:
+  U   nothing about `r` exists before its registration (table, topics, workers, builder entries, publisher steps, calls);
+  P/I all places of `r` (table entry, topics, workers, builder entries, publisher steps, publisher calls in the mailbox, parked
+      newRequest) are at ONE peer, and all response identities (`inc`) attached to them (table entry, started and not yet
+      returned workers, builder entries, `callClose` / `callTerminate` steps, `closeNetErr` / `terminate` messages) are EQUAL;
+  K   while the response is in the table every `emitDone r` in a publisher queue is behind a `callTerminate r _` of that queue
+      or a pending `terminate r _` call of that publisher;   D1  completed r logged ⇒ r not in the table;
+  H1  a queued `callClose r` / pending `closeNetErr r` ⇒ the response stream of r is closed;
+  J2  stream of r closed ⇒ no builder of any peer holds an entry of r;
+  J3  no `emitDone r` behind a `callClose r` in a publisher queue, none at all while that publisher's `closeNetErr r` is pending;
+  D2  network error confirmed or reported (`NF`) ⇒ no completed notification, no terminal status of r in any builder or
+      publisher queue, stream closed.    D1 + D2 + `Inv2` give the clause (confirmation needs the response in the table).
 -/
 namespace GS.C05
 open GS.RespLife
